@@ -250,6 +250,8 @@ func runC11(c *eng.Ctx) {
 	ruleKeyScanCoversEverySegment(c)
 	c.Rule("R08.2", "K5")
 	ruleNewestSegmentUntouched(c)
+	c.Rule("R11.9", "K1")
+	ruleCursorsAreNotSubjectToRetention(c)
 
 }
 
